@@ -7,9 +7,10 @@ mx = int(sys.argv[4]) if len(sys.argv) > 4 else 10**9
 mod = runner.load_prop(pid)
 by = collections.defaultdict(list)
 n = 0
-for i, c in enumerate(mod.cases(tier, seed)):
+from vf.runner import all_cases, run_one
+for i, c in enumerate(all_cases(mod, mod.ID, tier, seed)):
     if i >= mx: break
-    r = mod.run_case(c)
+    r = run_one(mod, mod.ID, c)
     n += 1
     for v in r["violations"]:
         by[v["mechanism"]].append((c, v))
